@@ -55,3 +55,13 @@ CHECKS["C19"] = dict(
     thorough=dict(shards=16, checks=30000, timeout=2400),
     assumptions=["timestamps are restricted to the int64-nanosecond range (time.Time outside it has no defined UnixNano, which every digest uses)", "a proto.Marshal error on invalid UTF-8 in a string field is an accepted outcome (counted), a silently altered value is not"],
 )
+
+CHECKS["C13"] = dict(
+    test="TestC13", level="exploration", exhaustive_part=True,
+    exhaustive_part_text="all delivery permutations of three fixed segment shapes (chain, diamond, two-depth parents) of 4 (quick) / 5 (thorough) vertices",
+    common=dict(shrinktime="20s", env={"GOMEMLIMIT": "3GiB"}),
+    quick=dict(shards=8, checks=50, timeout=900),
+    thorough=dict(shards=16, checks=140, timeout=3000),
+    assumptions=["retry steps go through the synchronous hook that pops the next parked vertex and calls the real admission path; the real 2 s ticker keeps running and may add a legal extra retry",
+                 "schedules stay inside the promised bounds (<=24 retries per vertex, far fewer than 500 parked)"],
+)
